@@ -157,6 +157,7 @@ def run(ctx, anchors=None):
     from . import common as _cm
     from . import c03_setup
     c03_setup.check_commitments(ctx, fb, prog)
+    c03_setup.check_commitment_not_skipped(ctx, fb, prog)
     # the stepper runs the commitment first and fails the step on Failed
     stepper = fb.fn("StepScript", file="debugger/interpreter.cpp")
     first_if = [n for n in stepper.nodes() if n["k"] == "if" and astq.estr(n["cond"]).replace(" ", "") in ("env.tce",)]
@@ -203,6 +204,7 @@ def run(ctx, anchors=None):
 
 
 MUTANTS = [
+    dict(name="commitment-skipped-for-empty-script", file="instance.cpp", find="    env->done &= successor_script.size() == 0 && !tce;\n", replace="    env->done &= successor_script.size() == 0;\n", expect=["R03.3:pending-commitment-not-done"]),
     dict(name="tce-over-wrong-script", file="instance.cpp", find="tce = new TaprootCommitmentEnv(control, program, scriptPubKey, &execdata.m_tapleaf_hash);", replace="tce = new TaprootCommitmentEnv(control, program, CScript(wstack.front().begin(), wstack.front().end()), &execdata.m_tapleaf_hash);", expect=["R03.3:v1-script-path-commitment"]),
     dict(name="tce-dropped", file="instance.cpp", find="                tce = new TaprootCommitmentEnv(control, program, scriptPubKey, &execdata.m_tapleaf_hash);\n", replace="", expect=["R03.3:v1-script-path-commitment"]),
     dict(name="v1-program-size-unchecked", file="instance.cpp", find="            if (program.size() != WITNESS_V1_TAPROOT_SIZE) {", replace="            if (false) {", expect=["R03.6:v1-program-size", "R03.3:v1-script-path-commitment"]),
